@@ -1814,7 +1814,6 @@ func init() {
 	}
 }
 
-
 type argAt struct {
 	v  ssa.Value
 	at ssa.Instruction
